@@ -30,6 +30,12 @@ from glue.core import roi as R  # noqa: E402
 from glue.core.link_helpers import LinkSame  # noqa: E402
 from glue.core.registry import Registry  # noqa: E402
 from glue.core import edit_subset_mode as EM  # noqa: E402
+from glue.core import message as M  # noqa: E402
+from glue.core import decorators as DECO  # noqa: E402
+from glue.core.hub import HubListener  # noqa: E402
+from glue.core.component import CoordinateComponent  # noqa: E402
+from glue.core.component_id import ComponentID  # noqa: E402
+from glue.core.coordinates import AffineCoordinates  # noqa: E402
 
 # ------------------------------------------------------------------------------------------
 # leaves: C01's constructors plus variants >= 100 that differ from a base variant only in the
@@ -180,44 +186,164 @@ def rolled(d, name, k):
     return np.roll(a.ravel(), k).reshape(a.shape)
 
 
-def other_data(d, key, new_shape):
-    """The dataset `update_values_from_data` refreshes from: same labels, rolled values; optionally a new shape."""
+def main_labels(d):
+    return [c.label for c in d.main_components]
+
+
+def other_data(d, key, new_shape, drop=(), add=(), label=None, coords="same"):
+    """The dataset `update_values_from_data` refreshes from: the labels of the main components `d` has now (minus
+    `drop`, plus `add`), rolled values; optionally a new shape / label / coordinates."""
     kw = {}
+    have = main_labels(d)
+
+    def cut(a):
+        # (never a size-1 axis: numpy would broadcast old-shape masks against new-shape ones)
+        return a[:-2] if a.ndim == 1 else (a[:-1] if a.shape[0] > 2 else a[:, :-1])
     for i, name in enumerate(ROLL_ATTS[key]):
+        if name not in have or name in drop:
+            continue
         a = rolled(d, name, i + 1)
-        if new_shape:
-            # (never a size-1 axis: numpy would broadcast old-shape masks against new-shape ones)
-            a = a[:-2] if a.ndim == 1 else (a[:-1] if a.shape[0] > 2 else a[:, :-1])
-        kw[name] = a.copy()
-    if key == "A6":
-        c, c2 = np.array(d["c"]), np.array(d["c2"])
-        kw["c"] = c[:-2] if new_shape else c
-        kw["c2"] = c2[:-2] if new_shape else c2
-    return Data(label=d.label, coords=d.coords if not new_shape else None, **kw)
+        kw[name] = (cut(a) if new_shape else a).copy()
+    for name in ("c", "c2"):
+        if name in have and name not in drop:
+            a = np.array(d[name])
+            kw[name] = cut(a) if new_shape else a
+    for i, name in enumerate(add):
+        a = rolled(d, STAT_ATT[key], i + 2) + 1.0
+        kw[name] = (cut(a) if new_shape else a).copy()
+    if coords == "same":
+        co = d.coords if not new_shape else None
+    elif coords == "new":
+        co = AffineCoordinates(np.array([[3.0, 0, 1], [0, 2.0, 0], [0, 0, 1.0]])) if d.ndim == 2 else None
+    else:
+        co = None
+    return Data(label=d.label if label is None else label, coords=co, **kw)
 
 
-def do_datamut(w, kind, di):
+# ---- re-entrant mutations: what is done, and the structure the code iterates over (the model's descriptor) ----
+
+MSG_ATOMS = {"NumericalDataChangedMessage": "numerical", "DataRemoveComponentMessage": "remove",
+             "ComponentsChangedMessage": "compsChanged", "DataAddComponentMessage": "add",
+             "ExternallyDerivableComponentsChangedMessage": "extDerivable", "DataUpdateMessage": "update",
+             "ComponentReplacedMessage": "replaced", "PixelAlignedDataChangedMessage": "pixelAligned"}
+MSG_ORDER = ["remove", "compsChanged", "extDerivable", "add", "numerical", "update", "replaced", "pixelAligned"]
+NOOP = ["removeComponent", []]      # the empty script
+
+
+def dep_tree(d, cid, gone):
+    """`_remove_component(cid)`: the internal derived components that go with it (recursively), as the node of a
+    forest: the list of its dependents."""
+    gone.add(cid)
+    out = []
+    for c2 in d.derived_components:
+        if c2 in gone:
+            continue
+        if cid in d.get_component(c2).link.get_from_ids():
+            out.append(dep_tree(d, c2, gone))
+    return out
+
+
+def non_coord(d):
+    return [c for c in d.components if not isinstance(d.get_component(c), CoordinateComponent)]
+
+
+def desc_update_values(d, o):
+    old, new = non_coord(d), non_coord(o)
+    newl, oldl = {c.label for c in new}, {c.label for c in old}
+    gone, forest = set(), []
+    for c in old:
+        if c.label not in newl and c not in gone:
+            forest.append(dep_tree(d, c, gone))
+    ndim_changed = o.ndim != d.ndim
+    nworld = len(d.world_component_ids) if d.coords is not None else 0
+    ndim = None
+    if ndim_changed:
+        ndim = [nworld, [dep_tree(d, c, gone) for c in d.pixel_component_ids if c not in gone], o.ndim]
+    added = len([c for c in new if c.label not in oldl])
+    cur = None if ndim_changed else d.coords
+    coords = None
+    if (cur is not None or o.coords is not None) and cur != o.coords:
+        coords = [0 if ndim_changed else nworld, o.ndim if o.coords is not None else 0]
+    return ["updateValues", forest, ndim, added, d.label != o.label, coords]
+
+
+def do_mutate(w, kind, di, arg):
+    """Runs the mutation; returns the descriptor of what the code iterates over (computed from the data-side
+    structure *before* the call: which components exist / depend on which, dimensions, label, coordinates)."""
     d = w.datas[di]
     key = w.dkeys[di]
+    have = main_labels(d)
     if kind == "updateComponents":
-        d.update_components({d.id[n]: rolled(d, n, i + 1) for i, n in enumerate(ROLL_ATTS[key])})
-    elif kind == "updateValues":
-        o = other_data(d, key, False)
+        d.update_components({d.id[n]: rolled(d, n, i + 1) for i, n in enumerate(ROLL_ATTS[key]) if n in have})
+        return ["updateComponents"]
+    if kind == "updateValues":
+        w.nadd = getattr(w, "nadd", 0) + 1
+        q = "q%d" % w.nadd
+        o = {"same": lambda: other_data(d, key, False),
+             "shape": lambda: other_data(d, key, True),
+             "drop": lambda: other_data(d, key, False, drop=("z",), add=(q,)),
+             "dropx": lambda: other_data(d, key, False, drop=("x",)),
+             "add": lambda: other_data(d, key, False, add=(q,)),
+             "label": lambda: other_data(d, key, False, label=d.label + "'"),
+             "coords": lambda: other_data(d, key, False, coords="new"),
+             "shapedrop": lambda: other_data(d, key, True, drop=("z",), add=(q,))}[arg]()
         w.keep.append(o)
+        desc = desc_update_values(d, o)
         d.update_values_from_data(o)
-    elif kind == "updateValuesShape":
-        o = other_data(d, key, True)
-        w.keep.append(o)
-        d.update_values_from_data(o)
-    elif kind == "addLink":
+        return desc
+    if kind == "addComponent":
+        w.nadd = getattr(w, "nadd", 0) + 1
+        d.add_component(rolled(d, STAT_ATT[key], 1) + 1.0, "n%d" % w.nadd)
+        return ["addComponent"]
+    if kind == "replaceComponent":
+        if arg not in have:
+            return NOOP
+        d.add_component(rolled(d, arg, 1), d.id[arg])
+        return ["replaceComponent"]
+    if kind == "removeComponent":
+        if arg not in have:
+            return NOOP
+        cid = d.id[arg]
+        desc = ["removeComponent", [dep_tree(d, cid, set())]]
+        d.remove_component(cid)
+        return desc
+    if kind == "updateId":
+        if arg not in have:
+            return NOOP
+        new = ComponentID(arg + "'")
+        w.keep.append(new)
+        d.update_id(d.id[arg], new)
+        return ["updateId"]
+    if kind == "setCoords":
+        co = None
+        if arg != "none" and d.ndim == 2:
+            w.ncoord = getattr(w, "ncoord", 0) + 1
+            co = AffineCoordinates(np.array([[2.0 + w.ncoord, 0, 1], [0, 1.0, 0], [0, 0, 1.0]]))
+        if d.coords is None and co is None:
+            return NOOP
+        desc = ["setCoords", len(d.world_component_ids) if d.coords is not None else 0, d.ndim if co is not None else 0]
+        d.coords = co
+        return desc
+    if kind == "addLink":
         lk = LinkSame(w.datas[0].id[STAT_ATT[w.dkeys[0]]], w.datas[1].id["u"])
         w.links.append(lk)
         w.dc.add_link(lk)
-    elif kind == "removeLink":
+        return ["linkChange"]
+    if kind == "removeLink":
         lk = w.links.pop()
         w.dc.remove_link(lk)
+        return ["linkChange"]
+    raise KeyError(kind)
+
+
+def do_datamut(w, kind, di):
+    """The atomic ops of round 1 (old corpus / replay cases)."""
+    if kind == "updateValuesShape":
+        do_mutate(w, "updateValues", di, "shape")
+    elif kind == "updateValues":
+        do_mutate(w, "updateValues", di, "same")
     else:
-        raise KeyError(kind)
+        do_mutate(w, kind, di, None)
 
 
 def stat_vals(w):
@@ -240,8 +366,59 @@ def stat_vals(w):
 
 class World(B.World):
     def __init__(self, case):
-        super().__init__(case)
+        super().__init__(case[:4])
+        self.listeners = case[4] if len(case) > 4 else []
         self.links = []
+
+
+class Reentrant(HubListener):
+    """A hub client as every viewer / layer artist is one: subscribed to the data messages, it evaluates
+    selections **inside its handler** (the evaluations the case lists for that message class).  It also records
+    what it is told and when: the message class, the number of `clear_all_caches()` calls since the previous
+    message (the cache generation), and the leaf environment *at that moment* (fresh copies of never-evaluated
+    probes through the undecorated `to_mask`: nothing is cached by measuring)."""
+
+    def __init__(self, hub, w, probes, run_eval):
+        self.w, self.probes, self.run_eval = w, probes, run_eval
+        self.by_msg = {}
+        for m, evs in w.listeners:
+            self.by_msg.setdefault(m, []).extend(evs)
+        self.active = False
+        self.muted = False
+        self.outside = 0
+        self.reset()
+        hub.subscribe(self, M.DataMessage, handler=self.notify)
+
+    @staticmethod
+    def generation():
+        f = getattr(DECO, "cache_generation", None)
+        return f() if f is not None else 0
+
+    def reset(self):
+        self.trace, self.points, self.evals = [], [], []
+        self.gen = self.generation()
+
+    def tick(self, name):
+        g = self.generation()
+        self.trace.append([g - self.gen, name])
+        self.gen = g
+        # the leaf environment is measured where something is evaluated: at the messages a listener of the case
+        # reacts to, and after the mutation
+        if name == "END" or self.by_msg.get(name):
+            self.points.append((measure_all(self.probes, self.w.datas, self.w.views), stat_vals(self.w)))
+        else:
+            self.points.append(("=", "="))
+
+    def notify(self, msg):
+        name = MSG_ATOMS.get(type(msg).__name__, "other-" + type(msg).__name__)
+        if self.muted:
+            return
+        if not self.active:
+            self.outside += 1
+            return
+        self.tick(name)
+        for ev in self.by_msg.get(name, []):
+            self.evals.append(self.run_eval(ev))
 
 
 def measure_all(probes, datas, views):
@@ -299,9 +476,49 @@ def run_history(case):
     w.keep.append([list(v) for v in pool.values()])
     epochs = [measure_all(probes, datas, views)]
     vals = [stat_vals(w)]
+    descs = []
     B.clear_memo()
     vars_, obs = [], []
     w.keep.extend([probes, vars_])
+
+    def run_eval(op):
+        """One evaluation (top level or inside a listener): the observable."""
+        t = op[0]
+        if t in ("eval", "stat", "hist") and op[1] >= len(vars_):
+            return "bad"          # the variable is not bound (yet)
+        try:
+            if t == "eval":
+                st, d, v, form = vars_[op[1]], datas[op[2]], B.view_obj(views[op[3]]), op[4]
+                if form == "kw":
+                    arr = d.get_mask(st, view=v)
+                elif form == "pos":
+                    arr = st.to_mask(d, v)
+                else:
+                    arr = st.to_mask(d)
+                return B.mask_out(arr)
+            if t == "evalcur":
+                grp = w.mode.edit_subset[0]
+                sub = [s for s in grp.subsets if s.data is datas[op[1]]][0]
+                return B.mask_out(sub.to_mask(B.view_obj(views[op[2]])))
+            if t == "stat":
+                d = datas[op[2]]
+                r = d.compute_statistic("sum", d.id[STAT_ATT[w.dkeys[op[2]]]], subset_state=vars_[op[1]])
+                r = float(r)
+                return "nan" if r != r else (["int", int(r)] if r == int(r) else ["float"])
+            if t == "hist":
+                d = datas[op[2]]
+                nb = op[3]
+                r = d.compute_histogram([d.id[STAT_ATT[w.dkeys[op[2]]]]], range=[[-0.5, nb - 0.5]], bins=[nb],
+                                        subset_state=vars_[op[1]])
+                return ["cnt"] + [int(x) for x in np.asarray(r).ravel()]
+            raise KeyError(t)
+        except Exception as e:  # noqa
+            a_ = B.exc_atom(e)
+            # statistics / histograms of a mask that does not fit the data fail in numpy in various ways
+            return ["err", a_ if (t in ("eval", "evalcur") or a_ == "incompatible") else "stat-error"]
+
+    lst = Reentrant(w.dc.hub, w, probes, run_eval)
+    w.keep.append(lst)
     for op in w.prog:
         t = op[0]
         try:
@@ -364,47 +581,38 @@ def run_history(case):
                     else:
                         edit_inplace(st, fresh, kind)
                     obs.append(None)
-            elif t == "datamut":
-                do_datamut(w, op[1], op[2])
+            elif t == "datamut":        # atomic form (round-1 corpus): no listener evaluates, nothing is traced
+                lst.muted = True
+                try:
+                    do_datamut(w, op[1], op[2])
+                finally:
+                    lst.muted = False
                 epochs.append(measure_all(probes, datas, views))
                 vals.append(stat_vals(w))
                 obs.append(None)
-            elif t in ("eval", "evalcur", "stat", "hist"):
+            elif t == "mutate":
+                lst.reset()
+                lst.active = True
                 try:
-                    if t == "eval":
-                        st, d, v, form = vars_[op[1]], datas[op[2]], B.view_obj(views[op[3]]), op[4]
-                        if form == "kw":
-                            arr = d.get_mask(st, view=v)
-                        elif form == "pos":
-                            arr = st.to_mask(d, v)
-                        else:
-                            arr = st.to_mask(d)
-                        obs.append(B.mask_out(arr))
-                    elif t == "evalcur":
-                        grp = w.mode.edit_subset[0]
-                        sub = [s for s in grp.subsets if s.data is datas[op[1]]][0]
-                        obs.append(B.mask_out(sub.to_mask(B.view_obj(views[op[2]]))))
-                    elif t == "stat":
-                        d = datas[op[2]]
-                        r = d.compute_statistic("sum", d.id[STAT_ATT[w.dkeys[op[2]]]], subset_state=vars_[op[1]])
-                        r = float(r)
-                        obs.append("nan" if r != r else (["int", int(r)] if r == int(r) else ["float"]))
-                    else:
-                        d = datas[op[2]]
-                        nb = op[3]
-                        r = d.compute_histogram([d.id[STAT_ATT[w.dkeys[op[2]]]]], range=[[-0.5, nb - 0.5]], bins=[nb],
-                                                subset_state=vars_[op[1]])
-                        obs.append(["cnt"] + [int(x) for x in np.asarray(r).ravel()])
-                except Exception as e:  # noqa
-                    a_ = B.exc_atom(e)
-                    # statistics / histograms of a mask that does not fit the data fail in numpy in various ways
-                    obs.append(["err", a_ if (t in ("eval", "evalcur") or a_ == "incompatible") else "stat-error"])
+                    descs.append(do_mutate(w, op[1], op[2], op[3]))
+                finally:
+                    lst.active = False
+                lst.tick("END")
+                for e_, v_ in lst.points:
+                    epochs.append(e_)
+                    vals.append(v_)
+                descs[-1] = [descs[-1], [m for _, m in lst.trace[:-1]]]
+                obs.append(["m", ["tr"] + lst.trace, ["ev"] + lst.evals])
+            elif t in ("eval", "evalcur", "stat", "hist"):
+                obs.append(run_eval(op))
             else:
                 raise KeyError(t)
         except IndexError:
             obs.append("bad")
+    if lst.outside:
+        obs.append(["data-messages-outside-mutations", lst.outside])
     out = [["obs"] + obs, ["memo"] + memo_dump(w)]
-    return out, epochs, vals, w
+    return out, epochs, vals, descs, w
 
 
 class HistFamily(Family):
@@ -429,69 +637,97 @@ class HistFamily(Family):
         self._last = None
         gc.disable()
         try:
-            out, epochs, vals, w = run_history(case)
-            self._last = (epochs, vals)
+            out, epochs, vals, descs, w = run_history(case)
+            self._last = (epochs, vals, descs)
             self._world = w
             return out
         finally:
             gc.enable()
 
     def line(self, case, pyout):
-        dkeys, views, leaves, prog = case
+        dkeys, views, leaves, prog = case[:4]
+        listeners = case[4] if len(case) > 4 else []
         if getattr(self, "_last", None):
-            epochs, vals = self._last
+            epochs, vals, descs = self._last
         else:
-            epochs, vals = [[[] for _ in leaves]], [[None for _ in dkeys]]
+            epochs, vals, descs = [[[] for _ in leaves]], [[None for _ in dkeys]], []
+        descs = list(descs)
+        ops = []
+        for op in prog:
+            if op[0] == "mutate":
+                d, seen = descs.pop(0) if descs else (NOOP, [])
+                ops.append(["mutate", d, ["seen"] + seen])
+            else:
+                ops.append(list(op))
         c = [["views"] + [B.view_hashable(v) for v in views],
              ["kinds"] + [ls[0] for ls in leaves],
              ["epochs"] + epochs,
              ["vals"] + vals,
-             ["ops"] + [list(op) for op in prog]]
+             ["ops"] + ops]
+        if listeners:
+            c.append(["listeners"] + [[m] + [list(e) for e in evs] for m, evs in listeners])
         return sx(["hist", c, pyout])
 
     def nontrivial(self, case, po):
         ops = [op[0] for op in case[3]]
-        return any(o in ("eval", "evalcur", "stat", "hist") for o in ops) and any(o in ("setattr", "editparam", "datamut") for o in ops)
+        return any(o in ("eval", "evalcur", "stat", "hist") for o in ops) and \
+            any(o in ("setattr", "editparam", "datamut", "mutate") for o in ops)
 
     def signature(self, case, pyout, res):
         prog = case[3]
+        listeners = case[4] if len(case) > 4 else []
         kinds = {case[2][op[2]][0] for op in prog if op[0] in ("setattr", "editparam")}
         memo = {k in LEAF_MEMO for k in kinds}
         return {"setattr": any(op[0] == "setattr" for op in prog),
                 "editparam": any(op[0] == "editparam" for op in prog),
                 "parammut": any(op[0] in ("setattr", "editparam") for op in prog),
-                "datamut": sorted({op[1] for op in prog if op[0] == "datamut"}),
+                "datamut": sorted({op[1] for op in prog if op[0] == "datamut"} |
+                                  {op[1] + ("-" + op[3] if op[3] else "") for op in prog if op[0] == "mutate"}),
+                "listener": sorted({m for m, evs in listeners if evs}),
                 "leafmemo": (True in memo) if len(memo) == 1 else ("none" if not memo else "mixed")}
 
     def describe(self, case):
-        return {"data": case[0], "views": case[1], "leaves": case[2], "prog": case[3]}
+        return {"data": case[0], "views": case[1], "leaves": case[2], "prog": case[3],
+                "listeners": case[4] if len(case) > 4 else []}
 
     def shrink(self, case):
-        dkeys, views, leaves, prog = case
+        dkeys, views, leaves, prog = case[:4]
+        listeners = case[4] if len(case) > 4 else []
         binders = ("leaf", "bin", "inv", "mor", "copy", "usecur", "child")
+        var_idx = {"bin": [2, 3], "inv": [1], "copy": [1], "eval": [1], "edit": [2], "child": [1], "setattr": [1],
+                   "editparam": [1], "stat": [1], "hist": [1]}
+        # listeners first: drop an entry, drop one evaluation
+        for i in range(len(listeners)):
+            yield [dkeys, views, leaves, prog, listeners[:i] + listeners[i + 1:]]
+        for i, (m, evs) in enumerate(listeners):
+            for j in range(len(evs)):
+                if len(evs) > 1:
+                    yield [dkeys, views, leaves, prog, listeners[:i] + [[m, evs[:j] + evs[j + 1:]]] + listeners[i + 1:]]
         for i in range(len(prog) - 1, -1, -1):
             op = prog[i]
             if op[0] in binders:
                 var = sum(1 for o in prog[:i] if o[0] in binders)
-                new, okc = [], True
-                for o in prog[:i] + prog[i + 1:]:
+                okc = [True]
+
+                def renum(o):
                     o2 = list(o)
-                    idxs = {"bin": [2, 3], "inv": [1], "copy": [1], "eval": [1], "edit": [2], "child": [1], "setattr": [1],
-                            "editparam": [1], "stat": [1], "hist": [1]}.get(o[0], [])
+                    idxs = var_idx.get(o[0], [])
                     if o[0] == "mor":
                         idxs = list(range(1, len(o)))
                     for k in idxs:
                         if o2[k] == var:
-                            okc = False
+                            okc[0] = False
                         elif o2[k] > var:
                             o2[k] -= 1
-                    new.append(o2)
-                if okc:
-                    yield [dkeys, views, leaves, new]
-            elif op[0] == "datamut" and op[1] in ("addLink", "removeLink"):
+                    return o2
+                new = [renum(o) for o in prog[:i] + prog[i + 1:]]
+                newl = [[m, [renum(e) for e in evs]] for m, evs in listeners]
+                if okc[0]:
+                    yield [dkeys, views, leaves, new, newl]
+            elif op[0] in ("datamut", "mutate") and op[1] in ("addLink", "removeLink"):
                 continue     # link ops come in pairs
             else:
-                yield [dkeys, views, leaves, prog[:i] + prog[i + 1:]]
+                yield [dkeys, views, leaves, prog[:i] + prog[i + 1:], listeners]
 
 
 # ------------------------------------------------------------------------------------------
@@ -511,6 +747,58 @@ CONTEXTS = [
     (["or", ["inv", ["and", "M", "L"]], "M"], [0, 0, 1]),
     (["and", ["mor", "L", "M"], "M"], [0, 0]),
     (["inv", ["inv", ["inv", "L"]]], [0, 0, 0]),
+]
+
+
+def MU(kind, di=0, arg=None):
+    """A data-side mutation, run phase by phase with the hub listeners of the case attached."""
+    if kind == "updateValuesShape":
+        kind, arg = "updateValues", "shape"
+    elif kind == "updateValues" and arg is None:
+        arg = "same"
+    return ["mutate", kind, di, arg]
+
+
+# the message classes a mutation broadcasts in the harness worlds (which listener classes are worth attaching)
+MUT_MSGS = {
+    ("updateComponents", None): ["numerical"],
+    ("updateValues", "same"): ["remove", "compsChanged", "extDerivable", "numerical"],
+    ("updateValues", "shape"): ["remove", "compsChanged", "numerical"],
+    ("updateValues", "drop"): ["remove", "compsChanged", "add", "numerical"],
+    ("updateValues", "dropx"): ["remove", "compsChanged", "numerical"],
+    ("updateValues", "add"): ["remove", "add", "compsChanged", "numerical"],
+    ("updateValues", "label"): ["compsChanged", "update", "numerical"],
+    ("updateValues", "coords"): ["remove", "compsChanged", "add", "numerical"],
+    ("updateValues", "shapedrop"): ["remove", "compsChanged", "add", "numerical"],
+    ("addComponent", None): ["add", "compsChanged"],
+    ("replaceComponent", "x"): ["numerical"],
+    ("replaceComponent", "y"): ["numerical"],
+    ("removeComponent", "z"): ["remove", "compsChanged"],
+    ("removeComponent", "x"): ["remove", "extDerivable", "compsChanged"],
+    ("updateId", "z"): ["replaced"],
+    ("updateId", "x"): ["replaced"],
+    ("setCoords", "new"): ["remove", "compsChanged", "add"],
+    ("setCoords", "none"): ["remove", "compsChanged"],
+    ("addLink", None): ["extDerivable"],
+    ("removeLink", None): ["extDerivable"],
+}
+# leaves whose current value the mutation changes (kind, variant) on the 1-d dataset A6
+LEAVES_ON = {
+    "values": [("inequality", 0), ("range", 4), ("floodFill", 0), ("catMultiRange", 0), ("roi2d", 0), ("inequality", 3)],
+    "z": [("inequality", 5), ("range", 3), ("roiNd", 2)],
+    "x": [("inequality", 0), ("range", 1), ("roi2d", 1), ("inequality", 3)],
+    "none": [("inequality", 0), ("range", 4)],
+}
+REENT_MUTS_A6 = [
+    (("updateComponents", None), "values"), (("updateValues", "same"), "values"), (("updateValues", "shape"), "values"),
+    (("updateValues", "drop"), "values"), (("updateValues", "drop"), "z"), (("updateValues", "dropx"), "x"),
+    (("updateValues", "add"), "values"), (("updateValues", "label"), "values"), (("addComponent", None), "none"),
+    (("replaceComponent", "x"), "x"), (("removeComponent", "z"), "z"), (("removeComponent", "x"), "x"),
+    (("updateId", "z"), "z"),
+    # the same in a world without the derived component (refreshed once before): its removal makes the data
+    # collection re-sync the links, i.e. clear the caches once more - which hides a missing / misplaced clear
+    (("updateValues", "drop"), "values", "nos"), (("updateValues", "drop"), "z", "nos"), (("updateValues", "dropx"), "x", "nos"),
+    (("removeComponent", "z"), "z", "nos"),
 ]
 
 
@@ -564,6 +852,8 @@ class Mutations(HistFamily):
     budget_share = 3.0
 
     def cases(self, tier, rng):
+        # the re-entrant stratum first (a family cut short by its deadline must not lose it)
+        yield from self.reentrant(tier)
         dkey = "A6"
         views = [["none"], ["sl", 1, 5, None]]
         contexts = CONTEXTS if tier == "thorough" else CONTEXTS[:9]
@@ -580,7 +870,7 @@ class Mutations(HistFamily):
             if inptgts:
                 muts.append(("editparam", "T", inptgts[0]))
                 muts.append(("editparam", "L", inptgts[0]))
-            muts += [("datamut", "updateComponents", None), ("datamut", "updateValues", None), ("datamut", "updateValuesShape", None)]
+            muts += [("datamut", "updateComponents", None), ("datamut", "updateValues", "same"), ("datamut", "updateValues", "shape")]
             for (tree, path), mut, pre, post in itertools.product(contexts, muts, pres, posts):
                 leaves = [["base", 0, 0], [kind, base, 0], ["inequality", 3, 0]]
                 if mut[0] in ("setattr", "editparam"):
@@ -607,11 +897,60 @@ class Mutations(HistFamily):
                     return ["eval", target, 0, 0, "pos"]
                 prog += [ev(x) for x in pre]
                 if mut[0] == "datamut":
-                    prog.append(["datamut", mut[1], 0])
+                    prog.append(["mutate", mut[1], 0, mut[2]])
                 else:
                     prog.append([mut[0], target if mut[1] == "T" else 0, 3])
                 prog += [ev(x) for x in post]
                 yield [[dkey], views, leaves, prog]
+
+    def reentrant(self, tier):
+        """Re-entrant stratum: mutation kind x message class x which selection the listener evaluates x whether the
+        tables were filled before x evaluation schedule after, for leaves whose current value the mutation
+        changes, in 4 (6) nesting contexts.  The listener is a real HubListener on the hub of the DataCollection."""
+        dkey = "A6"
+        views = [["none"], ["sl", 1, 5, None]]
+        thorough = tier == "thorough"
+        ctxs = [CONTEXTS[i] for i in ((0, 1, 2, 4, 5, 7) if thorough else (0, 1, 2, 4))]
+        for (mk, affected, *flags) in REENT_MUTS_A6:
+            prelude = [MU("updateValues", 0, "same")] if "nos" in flags else []
+            lvs = LEAVES_ON[affected]
+            if not thorough:
+                lvs = lvs[:3]
+            for (kind, var), (tree, path) in itertools.product(lvs, ctxs):
+                if not thorough and (kind, var) == lvs[-1] and len(lvs) == 3 and tree not in ("L", CONTEXTS[2][0]):
+                    continue      # quick: the third leaf (flood fill: its own cache) on its own and under `and`
+                leaves = [["base", 0, 0], [kind, var, 0], ["inequality", 1, 0]]
+                base = [["leaf", 1], ["leaf", 2]]
+                root = build(tree, base, 0, 1)
+                cur = root
+                nv = sum(1 for o in base if o[0] in ("leaf", "bin", "inv", "mor"))
+                for i in path:
+                    base.append(["child", cur, i])
+                    cur = nv
+                    nv += 1
+                target = cur
+                sels = {"root": ["eval", root, 0, 0, "kw"], "target": ["eval", target, 0, 0, "pos"],
+                        "rootv1": ["eval", root, 0, 1, "kw"], "stat": ["stat", root, 0]}
+                lsels = ["root", "target", "stat"] if path else ["root", "stat"]
+                base = base + prelude
+                for msg in MUT_MSGS[mk]:
+                    if prelude and msg not in ("remove", "compsChanged"):
+                        continue
+                    for lsel in lsels:
+                        if lsel == "stat" and not thorough and msg not in ("compsChanged", "numerical"):
+                            continue
+                        for pre in ([], ["root"]):
+                            if not pre and lsel != "root" and not thorough:
+                                continue
+                            for post in (["root"], ["target", "root", "rootv1"]):
+                                if post[0] == "target" and not path and not thorough:
+                                    continue
+                                prog = list(base) + [sels[x] for x in pre] + [MU(mk[0], 0, mk[1])] + [sels[x] for x in post]
+                                yield [[dkey], views, leaves, prog, [[msg, [sels[lsel]]]]]
+                # a viewer: redraws on every message it is told about; two mutations in a row
+                allm = [[m, [sels["root"]]] for m in MSG_ORDER]
+                yield [[dkey], views, leaves, list(base) + [sels["root"], MU(mk[0], 0, mk[1]), sels["root"],
+                                                          MU("updateComponents"), sels["target"], sels["root"]], allm]
 
 
 class EditSubset(HistFamily):
@@ -622,6 +961,7 @@ class EditSubset(HistFamily):
     budget_share = 1.5
 
     def cases(self, tier, rng):
+        yield from self.reentrant(tier)
         for dkey in (["A6", "A34"] if tier == "quick" else ["A6", "A34", "A232"]):
             nd = NDIM[dkey]
             views = [["none"], B.VIEWS_BY_NDIM[nd][1]]
@@ -634,14 +974,60 @@ class EditSubset(HistFamily):
                             leaves = [["base", 0, 0], [kind, base, 0], ["inequality", 3, 0], ["range", 4, 0]]
                             prog = [["leaf", 1], ["leaf", 2]]
                             root = build(tree, prog, 0, 1)
-                            prog += [["edit", "replace", root], ["evalcur", 0, 0], ["evalcur", 0, 1], ["datamut", dm, 0], ["evalcur", 0, 0]]
+                            prog += [["edit", "replace", root], ["evalcur", 0, 0], ["evalcur", 0, 1], MU(dm), ["evalcur", 0, 0]]
                             if second:
                                 prog += [["leaf", 3], ["edit", second, sum(1 for o in prog if o[0] in ("leaf", "bin", "inv", "mor")) - 1],
-                                         ["evalcur", 0, 0], ["datamut", "updateComponents", 0], ["evalcur", 0, 0], ["evalcur", 0, 1]]
+                                         ["evalcur", 0, 0], MU("updateComponents"), ["evalcur", 0, 0], ["evalcur", 0, 1]]
                             prog += [["eval", root, 0, 0, "kw"], ["hist", root, 0, 8]]
                             if not (tree == "L" and kind in ("slice", "pixel")):    # compute_statistic bypasses to_mask there
                                 prog.append(["stat", root, 0])
                             yield [[dkey], views, leaves, prog]
+
+    def reentrant(self, tier):
+        """Re-entrant stratum on the edit-subset path (what a viewer does: `subset.to_mask()` in its handler):
+        mutation kind x message class x listener evaluation (mask / statistic of the edit subset) x nesting, on
+        1-d and 2-d data (world coordinates: the `coords` setter, refreshes that change the coordinates)."""
+        thorough = tier == "thorough"
+        worlds = [("A6", REENT_MUTS_A6),
+                  ("A34", [(("updateValues", "same"), "values"), (("updateValues", "shape"), "values"),
+                           (("updateValues", "coords"), "world"), (("updateValues", "shapedrop"), "values"),
+                           (("setCoords", "new"), "world"), (("setCoords", "none"), "world"),
+                           (("updateComponents", None), "values"), (("removeComponent", "z"), "z")])]
+        for dkey, muts in worlds:
+            nd = NDIM[dkey]
+            views = [["none"], B.VIEWS_BY_NDIM[nd][1]]
+            for (mk, affected, *flags) in muts:
+                prelude = [MU("updateValues", 0, "same")] if "nos" in flags else []
+                if affected == "world":
+                    lvs = [("range", 5)]
+                elif dkey == "A34":
+                    lvs = [("inequality", 5), ("range", 3)] if affected == "z" else [("inequality", 0), ("range", 4), ("floodFill", 0)]
+                else:
+                    lvs = LEAVES_ON[affected][:2] + ([("floodFill", 0)] if affected == "values" else [])
+                for (kind, var), (tree, path) in itertools.product(lvs, [CONTEXTS[i] for i in ((0, 1, 3, 5) if thorough else (0, 1, 3))]):
+                    leaves = [["base", 0, 0], [kind, var, 0], ["inequality", 1, 0], ["range", 4, 0]]
+                    base = [["leaf", 1], ["leaf", 2]]
+                    root = build(tree, base, 0, 1)
+                    base += [["edit", "replace", root]] + prelude
+                    post = [["evalcur", 0, 0], ["evalcur", 0, 1], ["eval", root, 0, 0, "kw"], ["hist", root, 0, 8]]
+                    if not (tree == "L" and kind in ("slice", "pixel")):
+                        post.append(["stat", root, 0])
+                    for msg in MUT_MSGS[mk]:
+                        if prelude and msg not in ("remove", "compsChanged"):
+                            continue
+                        for lev in (["evalcur", 0, 0], ["stat", root, 0], ["evalcur", 0, 1]):
+                            if lev[0] != "evalcur" and not thorough and msg not in ("compsChanged", "numerical"):
+                                continue
+                            if lev == ["evalcur", 0, 1] and not thorough:
+                                continue
+                            for pre in ([], [["evalcur", 0, 0]]):
+                                yield [[dkey], views, leaves, list(base) + pre + [MU(mk[0], 0, mk[1])] + post, [[msg, [lev]]]]
+                    # a second edit mode and a second mutation with the listener still attached
+                    allm = [[m, [["evalcur", 0, 0]]] for m in MSG_ORDER]
+                    nvar = sum(1 for o in base if o[0] in ("leaf", "bin", "inv", "mor"))
+                    yield [[dkey], views, leaves, list(base) + [["evalcur", 0, 0], MU(mk[0], 0, mk[1]), ["evalcur", 0, 0], ["leaf", 3],
+                                                              ["edit", "or", nvar], ["evalcur", 0, 0], MU("updateValues", 0, "same"),
+                                                              ["evalcur", 0, 0]] + post, allm]
 
 
 class Links(HistFamily):
@@ -660,18 +1046,37 @@ class Links(HistFamily):
                     root = build(tree, prog, 0, 1)
                     e1 = [["eval", root, 1, 0, "kw"]]
                     e2 = [["eval", root, 1, 0, "kw"], ["eval", root, 0, 0, "kw"], ["eval", root, 1, 1, "kw"], ["stat", root, 1]]
+                    AL, RL = MU("addLink"), MU("removeLink")
                     if sched == 0:
-                        prog += [["datamut", "addLink", 0]] + e2 + [["datamut", "removeLink", 0]] + e2
+                        prog += [AL] + e2 + [RL] + e2
                     elif sched == 1:
-                        prog += e1 + [["datamut", "addLink", 0]] + e2 + [["datamut", "updateComponents", 0]] + e2 + \
-                            [["datamut", "removeLink", 0]] + e1
+                        prog += e1 + [AL] + e2 + [MU("updateComponents", 0)] + e2 + [RL] + e1
                     elif sched == 2:
-                        prog += [["datamut", "addLink", 0]] + e1 + [["datamut", "updateComponents", 1]] + e2 + \
-                            [["datamut", "removeLink", 0], ["datamut", "addLink", 0]] + e2
+                        prog += [AL] + e1 + [MU("updateComponents", 1)] + e2 + [RL, AL] + e2
                     else:
-                        prog += [["edit", "replace", root], ["datamut", "addLink", 0], ["evalcur", 1, 0], ["datamut", "removeLink", 0],
-                                 ["evalcur", 1, 0], ["evalcur", 0, 0]]
+                        prog += [["edit", "replace", root], AL, ["evalcur", 1, 0], RL, ["evalcur", 1, 0], ["evalcur", 0, 0]]
                     yield [["A6", "B4"], views, leaves, prog]
+                    # re-entrant: the link manager updates the datasets one after the other, each with its own
+                    # message - a listener evaluates on either dataset when either is announced
+                    if sched in (0, 2) or tier == "thorough":
+                        for lev in (["eval", root, 1, 0, "kw"], ["eval", root, 0, 0, "kw"], ["stat", root, 1]):
+                            for msg in ("extDerivable", "numerical"):
+                                if msg == "numerical" and sched == 0:
+                                    continue
+                                yield [["A6", "B4"], views, leaves, prog, [[msg, [lev]]]]
+            # component removals / refreshes while linked (the link manager and the data collection react
+            # re-entrantly to the messages of the removal)
+            for (tree, path) in (CONTEXTS[:4] if lk[0] in ("range", "inequality") or tier == "thorough" else []):
+                leaves = [["base", 0, 0], lk, ["element", 2, 1], ["inequality", 3, 0]]
+                base = [["leaf", 1], ["leaf", 2]]
+                root = build(tree, base, 0, 1)
+                e2 = [["eval", root, 1, 0, "kw"], ["eval", root, 0, 0, "kw"], ["stat", root, 1]]
+                for mk in (("removeComponent", "z"), ("removeComponent", "x"), ("updateValues", "same"), ("updateValues", "drop"),
+                           ("updateId", "z"), ("addComponent", None)):
+                    for msg in MUT_MSGS[mk]:
+                        for lev in (["eval", root, 1, 0, "kw"], ["eval", root, 0, 0, "kw"]):
+                            prog = list(base) + [MU("addLink")] + e2[:1] + [MU(mk[0], 0, mk[1])] + e2 + [MU("removeLink")] + e2[:2]
+                            yield [["A6", "B4"], views, leaves, prog, [[msg, [lev]]]]
 
 
 class Shadow:
@@ -807,18 +1212,27 @@ def random_history(rng, tier):
         elif r < 0.82:
             if len(dk) == 2 and rng.random() < 0.5:
                 if linked[0]:
-                    prog.append(["datamut", "removeLink", 0])
+                    prog.append(MU("removeLink"))
                 else:
-                    prog.append(["datamut", "addLink", 0])
+                    prog.append(MU("addLink"))
                 linked[0] = not linked[0]
             else:
-                m = rng.choice(["updateComponents", "updateComponents", "updateValues", "updateValuesShape"])
+                m = rng.choice(["updateComponents", "updateComponents", "updateValues", "updateValuesShape", "structure"])
                 if m == "updateValuesShape":
                     if shape_changed or not allow_shape:
                         m = "updateValues"
                     else:
                         shape_changed = True
-                prog.append(["datamut", m, rng.randrange(len(dk)) if m == "updateComponents" else 0])
+                if m == "structure":
+                    # the component set / coordinates change: refreshes that drop and add components, components
+                    # added / replaced / removed / re-labelled, new coordinates (never the statistic attribute)
+                    mk = rng.choice([("updateValues", "drop"), ("updateValues", "dropx"), ("updateValues", "add"),
+                                     ("updateValues", "label"), ("updateValues", "coords"), ("addComponent", None),
+                                     ("replaceComponent", "x"), ("removeComponent", "z"), ("removeComponent", "x"),
+                                     ("updateId", "z"), ("updateId", "x"), ("setCoords", "new"), ("setCoords", "none")])
+                    prog.append(MU(mk[0], 0, mk[1]))
+                else:
+                    prog.append(MU(m, rng.randrange(len(dk)) if m == "updateComponents" else 0))
         elif r < 0.87:
             o = sh.objs[sh.vars[a]]
             if not (o[0] == "leaf" and o[1] in ("slice", "pixel")):     # compute_statistic bypasses to_mask for these
@@ -836,7 +1250,26 @@ def random_history(rng, tier):
         if rng.random() < 0.5:
             prog.append(["eval", a, 0, rng.randrange(len(views)), rng.choice(["kw", "pos"])])
     prog.append(["evalcur", 0, 0])
-    return [list(dk), views, leaves, prog]
+    # hub listeners: 0-3 subscriptions, each evaluating 1-2 selections that exist from the start (the first two
+    # variables), the edit subset, or a statistic, on a random message class
+    listeners = []
+    if rng.random() < 0.7:
+        for _ in range(rng.randint(1, 3)):
+            evs = []
+            for _ in range(rng.randint(1, 2)):
+                q = rng.random()
+                a = rng.randrange(2)
+                if q < 0.4:
+                    evs.append(["eval", a, rng.randrange(len(dk)), rng.randrange(len(views)), rng.choice(["kw", "pos"])])
+                elif q < 0.8:
+                    evs.append(["evalcur", rng.randrange(len(dk)), rng.randrange(len(views))])
+                else:
+                    o = sh.objs[sh.vars[a]]
+                    if not (o[0] == "leaf" and o[1] in ("slice", "pixel")):
+                        evs.append(["stat", a, 0])
+            if evs:
+                listeners.append([rng.choice(MSG_ORDER[:5] + MSG_ORDER[:2]), evs])
+    return [list(dk), views, leaves, prog, listeners]
 
 
 class RandomHistories(HistFamily):
@@ -1126,6 +1559,9 @@ class HistogramLayer(Family):
              "nothing", "normalize", "x_att_twin", "retype", "hash_min", "n_bin_frac"]
 
     def cases(self, tier, rng):
+        # the fine-step stratum first: when the family is cut short by its deadline (a loaded machine, the thorough
+        # generators inside the quick budget after a change of the transcribed code) it is the part that matters most
+        yield from self.fine_cases(tier)
         L = 2 if tier == "quick" else 3
         old, extra = self.PERTS[:10], self.PERTS[10:]
         for layer in ("data", "subset"):
@@ -1136,6 +1572,8 @@ class HistogramLayer(Family):
                     if n == 3 and any(p in extra for p in (seq[0], seq[2])):
                         continue      # length 3: the object perturbations only in the middle
                     yield [layer] + list(seq)
+
+    def fine_cases(self, tier):
         thorough = tier == "thorough"
         mags = ["one", "e5", "jd", "e9", "em6", "njd"] + (["half", "e15", "none"] if thorough else [])
         for mag in mags + ["zero"]:
@@ -1485,12 +1923,15 @@ class AttributeHelpers(Family):
 
 
 THEOREMS = ["C05.spec_always_fresh", "C05.fresh_iff_no_stale", "C05.fresh_of_cleanBelow", "C05.impl_fresh_partial",
-            "C05.impl_fresh_unseen", "C05.impl_fresh_repaired", "C05.compute_statistic_fresh", "C05.keyed_cache_sound",
+            "C05.impl_fresh_unseen", "C05.impl_fresh_reentrant", "C05.repaired_scripts_sound", "C05.delay_block_sound",
+            "C05.impl_fresh_repaired", "C05.impl_fresh_repaired_atomic", "C05.compute_statistic_fresh", "C05.keyed_cache_sound",
             "C05.keyed_cache_stale", "C05.keyed_cache_approx_key_unsound", "C05.keyed_cache_lossy_key_unsound",
             "C05.keyed_cache_sound_iff", "C05.slotRun_eq_slotRunRel", "C05.allclose_key_stale", "C05.repairedPolicy_clearsAll", "C05.pinnedPolicy_not_clearsAll",
             "C05.stale_child_after_update_components", "C05.stale_old_shape_after_update_values",
             "C05.stale_after_link_removed", "C05.stale_inequality_after_setter", "C05.stale_composite_after_param_edit",
-            "C05.stale_roi_moved_under_composite", "C05.stale_multiOr_copy_after_edit"]
+            "C05.stale_roi_moved_under_composite", "C05.stale_multiOr_copy_after_edit",
+            "C05.clear_before_swap_unsound", "C05.message_between_swap_and_clear_unsound", "C05.remove_without_clear_stale",
+            "C05.clear_after_delay_block_unsound"]
 
 PROP = Property(
     id="C05",
@@ -1505,6 +1946,14 @@ PROP = Property(
          "schedules `eval* ; mutate ; eval*` (<= 6); the edit-subset path for all data-side mutations on 1-3-d data; link "
          "add/remove schedules; all perturbation sequences (<= 3/4) of the flood-fill and histogram-layer caches; seeded random "
          "histories beyond; non-trivial = the history evaluates something and mutates something; "
+         "re-entrant evaluation: every data-side mutation (update_components, update_values_from_data with the same / another "
+         "shape, label, coordinates and component set, add / replace / remove / re-label a component, the coords setter, link "
+         "add / remove) runs with a real HubListener on the hub of the DataCollection that evaluates selections / statistics "
+         "inside its handler - exhaustive core: mutation kind x message class broadcast x which selection the listener "
+         "evaluates x tables filled before or not x evaluation schedule after, for leaves whose value the mutation changes, "
+         "4-6 nesting contexts, 1-d / 2-d data, the edit-subset path, two linked datasets; random listeners in the random "
+         "histories; the leaf environment is measured at every message (the state current at that moment); the message "
+         "sequence and the number of clear_all_caches() calls between messages are compared with the transcribed script; "
          "keyed caches (flood, hlayer, helper): besides O(1) steps every numeric key input is moved by 1 ulp, 1e-12, 1e-9, 1e-7, "
          "1e-5, 1e-3 relative (absolute 1e-8 / 1e-12 / 1e-300 at 0) at the magnitudes O(1), 1e5, 2459000.5, 1e9, 1e-6, negative and 0 "
          "(up, further up, back, down), object-valued key inputs are replaced by equal-label / value-equal / equal-hash distinct "
